@@ -197,6 +197,7 @@ type Runtime struct {
 	hash *maphash.Hash
 
 	jobQueue []func()
+	draining bool // the job queue is being drained (see leave())
 
 	promiseRejectionTracker PromiseRejectionTracker
 	asyncContextTracker     AsyncContextTracker
@@ -2850,6 +2851,15 @@ func (r *Runtime) getHash() *maphash.Hash {
 
 // called when the top level function returns normally (i.e. control is passed outside the Runtime).
 func (r *Runtime) leave() {
+	if r.draining {
+		// A native function called by a job has called back into the runtime (e.g. using a Callable) while the call stack
+		// was empty. The jobs it has queued must run after the ones that are already in the queue, not now.
+		return
+	}
+	r.draining = true
+	defer func() {
+		r.draining = false
+	}()
 	var jobs []func()
 	for len(r.jobQueue) > 0 {
 		jobs, r.jobQueue = r.jobQueue, jobs[:0]
